@@ -77,26 +77,25 @@ def pyRange (a b : Int) : List Int :=
   if b > a then (List.range (b - a + 1).toNat).map fun (i : Nat) => a + (i : Int)
   else (List.range (a - b + 1).toNat).map fun (i : Nat) => a - (i : Int)
 
+def checkNode (g : Graph) (nm : String) : D String :=
+  if g.hasNode nm then pure nm else throw (.selector s!"Node {nm} does not exist")
+
 def nodesFromRange (g : Graph) (node : String) : List (Int × Int) → D (List String)
   | [] => throw (.selector "Range is empty")
-  | [(a, b)] =>
-    (pyRange a b).mapM fun i =>
-      let nm := node ++ "_" ++ toString i
-      if g.hasNode nm then pure nm else throw (.selector s!"Node {nm} does not exist")
+  | [(a, b)] => (pyRange a b).mapM fun i => checkNode g (node ++ "_" ++ toString i)
   | (a, b) :: rest => do
     let parts ← (pyRange a b).mapM fun i => nodesFromRange g (node ++ "_" ++ toString i) rest
     pure parts.flatten
 
 def nodesFromIdx (g : Graph) (node : String) (idx : List Int) : D (List String) :=
   -- f"{node}_{'_'.join(...)}": an empty index list yields a trailing underscore
-  let nm := node ++ "_" ++ String.intercalate "_" (idx.map toString)
-  if g.hasNode nm then pure [nm] else throw (.selector s!"Node {nm} does not exist")
+  (checkNode g (node ++ "_" ++ String.intercalate "_" (idx.map toString))).map fun nm => [nm]
 
 def nodesFromLvl (g : Graph) (node : String) (lvl : Int) : D (List String) :=
-  (g.nodes.filter (·.name.startsWith node)).filterMapM fun n =>
-    match n.lvl with
-    | some l => pure (if (l : Int) == lvl then some n.name else none)
-    | none => throw (.selector s!"node {n.name} has no level")
+  -- two chained filters: prefix, then `nodes[n]["lvl"] == lvl` (KeyError if a candidate has no level)
+  let cands := g.nodes.filter (·.name.startsWith node)
+  if cands.any (·.lvl.isNone) then throw (.selector "KeyError: 'lvl'")
+  else pure ((cands.filter fun n => n.lvl.map (fun (l : Nat) => (l : Int)) == some lvl).map (·.name))
 
 /-! ### constructors -/
 
